@@ -711,6 +711,95 @@ theorem C18_readenv_exact (raw : RawEnv) (h t : Bytes) (hh : raw.home = some h) 
         · simp only [c3, if_true]
         · simp only [c3, if_false]
 
+/-- The buffer sizes the model of `readenv` uses are the ones `struct environment` declares in extern.h of the tree under
+check (table regenerated on every run): `ev_home[PATH_MAX]`, `ev_tmpdir[PATH_MAX]`, `ev_hostname[256]`, `ev_tz.t_buf[256]`. -/
+theorem C18_readenv_buffers :
+    Gen.envBuffers = [("ev_home", PATH_MAX), ("ev_tmpdir", PATH_MAX), ("ev_hostname", NAME_MAX1), ("t_buf", TZ_BUF)] := by
+  decide +kernel
+
+/-- The TZ copy of `readenv` (`strlcpy(env->ev_tz.t_buf, p, sizeof(env->ev_tz.t_buf)) >= siz` => `errc`), bound 256, for
+EVERY environment: (1) never a truncation - whenever `readenv` succeeds the time zone the run continues with is exactly
+`getenv("TZ")` and it is shorter than the buffer; (2) a value that does not fit ends the run, whatever HOME and TMPDIR
+are; (3) a value that fits is accepted in full as soon as HOME and TMPDIR are; (4) an unset TZ likewise. -/
+theorem C18_readenv_tz_exact (raw : RawEnv) :
+    (∀ hm tm zo, readenv raw = .ok (hm, tm, zo) → zo = raw.tz ∧ ∀ z, raw.tz = some z → z.length < TZ_BUF) ∧
+    (∀ z, raw.tz = some z → z.length ≥ TZ_BUF → ∃ e, readenv raw = .error e) ∧
+    (∀ z hm, raw.tz = some z → z.length < TZ_BUF → homeSource raw = some hm → hm.length < PATH_MAX →
+      (tmpSource raw).length < PATH_MAX → readenv raw = .ok (hm, tmpSource raw, some z)) ∧
+    (∀ hm, raw.tz = none → homeSource raw = some hm → hm.length < PATH_MAX → (tmpSource raw).length < PATH_MAX →
+      readenv raw = .ok (hm, tmpSource raw, none)) ∧
+    TZ_BUF = 256 := by
+  refine ⟨?_, ?_, ?_, ?_, rfl⟩
+  · intro hm tm zo hr
+    unfold readenv at hr
+    split at hr
+    · cases hr
+    · split at hr
+      · cases hr
+      · split at hr
+        · cases hr
+        · split at hr
+          · rename_i hz
+            cases hr
+            exact ⟨hz.symm, fun z h => by rw [hz] at h; cases h⟩
+          · rename_i z hz
+            split at hr
+            · cases hr
+            · rename_i z' hfit
+              cases hr
+              obtain ⟨e, l⟩ := strlcpyFits_some hfit
+              subst e
+              exact ⟨hz.symm, fun w h => by rw [hz] at h; cases h; exact l⟩
+  · intro z hz hlen
+    unfold readenv
+    split
+    · exact ⟨_, rfl⟩
+    · split
+      · exact ⟨_, rfl⟩
+      · split
+        · exact ⟨_, rfl⟩
+        · rw [hz]
+          have : strlcpyFits TZ_BUF z = none := by unfold strlcpyFits; simp [hlen]
+          simp only [this]
+          exact ⟨_, rfl⟩
+  · intro z hm hz hlen hh hhl htl
+    unfold readenv
+    rw [hh]
+    have h1 : strlcpyFits PATH_MAX hm = some hm := by unfold strlcpyFits; simp [Nat.not_le.mpr hhl]
+    have h2 : strlcpyFits PATH_MAX (tmpSource raw) = some (tmpSource raw) := by unfold strlcpyFits; simp [Nat.not_le.mpr htl]
+    have h3 : strlcpyFits TZ_BUF z = some z := by unfold strlcpyFits; simp [Nat.not_le.mpr hlen]
+    simp only [h1, h2, hz, h3]
+  · intro hm hz hh hhl htl
+    unfold readenv
+    rw [hh]
+    have h1 : strlcpyFits PATH_MAX hm = some hm := by unfold strlcpyFits; simp [Nat.not_le.mpr hhl]
+    have h2 : strlcpyFits PATH_MAX (tmpSource raw) = some (tmpSource raw) := by unfold strlcpyFits; simp [Nat.not_le.mpr htl]
+    simp only [h1, h2, hz]
+
+/-- A TZ that does not fit ends the run before ANY call, with status 1, whatever the options (`-d`, `-n`, `-`), the
+configuration and the maildirs are: the program over calls is a bare `ret` and the files are the initial ones. -/
+theorem C18_readenv_tz_too_long_no_call (raw : RawEnv) (z : Bytes) (hz : raw.tz = some z) (hlen : z.length ≥ TZ_BUF)
+    (fOpt : Option Bytes) (env : PEnv) (orc : EvalOracles) (confOk : Bool) (conf : List ConfBlock) (files : Files) (input : Bytes) :
+    mainFromEnv raw fOpt env orc confOk conf files input = .ret (1, { files := files, error := true, reject := false, log := [] }) := by
+  obtain ⟨e, he⟩ := (C18_readenv_tz_exact raw).2.1 z hz hlen
+  unfold mainFromEnv startPaths
+  rw [he]
+
+/-! Non-vacuity: a TZ of 255 bytes is accepted in full, one of 256 bytes (and one of 280 or 5000) ends the run. -/
+
+example : (readenv { home := some [47], pwdir := none, tmpdir := some [47], tz := some (List.replicate 255 85), pathTmp := [] }).toOption =
+    some ([47], [47], some (List.replicate 255 85)) := by decide +kernel
+
+example : (match readenv { home := some [47], pwdir := none, tmpdir := some [47], tz := some (List.replicate 256 85), pathTmp := [] } with
+    | .error .tzTooLong => true
+    | _ => false) = true := by decide +kernel
+
+example : (match readenv { home := some [47], pwdir := none, tmpdir := some [47], tz := some (List.replicate 280 85), pathTmp := [] } with
+    | .error .tzTooLong => true
+    | _ => false) = true := by decide +kernel
+
+example : (tzState none, tzState (some []), tzState (some [85])) = (0, 1, 2) := rfl
+
 theorem readenv_ok {raw : RawEnv} {hm tm : Bytes} {z : Option Bytes} (hr : readenv raw = .ok (hm, tm, z)) :
     homeSource raw = some hm ∧ hm.length < PATH_MAX ∧ tm = tmpSource raw ∧ tm.length < PATH_MAX := by
   unfold readenv at hr
